@@ -76,6 +76,14 @@ EXTRA = {
  "C04": " Also: long sessions with recurring key-rich replies, events receiver not polled (up to 10 000 pending), mixed-width unknown subsystem names; fz_sim campaign in the thorough tier.",
  "C05": " Also: write stalls, long sessions, and (beyond the stated quantifier, declared as such) client-side faults incl. a transient Interrupted write; fz_sim campaign in the thorough tier.",
  "C08": " Also: E8 (a caller told that the connection failed => client reports closed), giant replies (1.25-80 MiB line), events handle held but unpolled with up to 2100 pending notifications; fz_sim campaign in the thorough tier.",
+ "C06": " Also: DEL as a twelfth character class, strings dense in escapable characters with lengths 2^k+-1, odd strings (\"/\", \".\", \"+0\", ...); every third case on a connection that has already sent other commands; fz_cmd campaign (16 processes) in the thorough tier.",
+ "C07": " Also: arguments of 2^k+d letters up to 4 MiB (cumulative line lengths past 1, 2, 4, 8 MiB) ending in LF/NUL; hashes compared under three hashers.",
+ "C11": " Also: stacks of 2^k+-1 negations up to 1025; known tag names in any letter case fold to the canonical tag on both sides.",
+ "C13": " Also: lists cloned and clone_from'd into lists of other lengths; protocol-level part with list replies whose leading frames are empty under interrupted/cancelled receives.",
+ "C15": " Also: every row x 40 odd strings (\"/\", \"//\", \".\", blanks, \"+0\", \"null\", BOM ...).",
+ "C18": " Also: the segmentation applies to the greeting bytes themselves, network read sizes (536..1500..65535), greeting lengths that are exact multiples of them, versions of 2^k+-1 bytes up to 4 MiB.",
+ "C19": " Also: nth/nth_back steps and whole-iterator adaptors (last, count, fold, rfold, skip, step_by, rev) on all four iterator types; frames obtained on connections with a history.",
+ "C20": " Also: hash law under three hashers (SipHash, word-wise, call-sensitive); 3.2*10^8 (thorough 4*10^9) pseudo-random unknown names of known-name lengths must map to the catch-all.",
  "C10": " Also: receives interrupted by a transient WouldBlock / dropped while pending and called again; responses of 70 000-1 000 000 lines cut at and around their boundaries.",
  "C14": " Each case additionally varies the connection's history (key cache, buffer growth) and the parameters of the decoding command object.",
  "C16": " Each case additionally varies the connection's history; sticker/channel names and values include multi-byte characters.",
